@@ -1,5 +1,5 @@
 (* C10 - Receive Maximum is never exceeded; the send quota neither leaks nor overflows. *)
-From Poster Require Import Proofs.IndepP Model.Sim Proofs.BytesP Proofs.ClientP Proofs.QuotaP Proofs.HandshakeP Proofs.SimInvP Proofs.SettleP Proofs.RefineP Proofs.OwnP Proofs.TraceP.
+From Poster Require Import Proofs.IndepP Model.Sim Proofs.BytesP Proofs.ClientP Proofs.QuotaP Proofs.HandshakeP Proofs.SimInvP Proofs.SettleP Proofs.RefineP Proofs.OwnP Proofs.TraceP Proofs.KindP.
 
 (* unconditional, any broker: 0 <= quota <= Receive Maximum is preserved by every handler, so
    the u16 quota can neither underflow nor grow beyond R *)
@@ -102,3 +102,20 @@ Theorem C10_pubrec_success_keeps_slot : forall (s : sys) (p : rxpkt), rk p = KPu
   quota (c (fst (handle_packet s p))) = quota (c s) /\ rmax (c (fst (handle_packet s p))) = rmax (c s).
 Proof. exact pubrec_success_keeps_slot. Qed.
 Print Assumptions C10_pubrec_success_keeps_slot.
+
+(* the guard is keyed on the packet type in the first byte of the encoded request (Proofs/KindP.v): every PUBLISH the encoder
+   builds - QoS 0..2, RETAIN set or not, whatever the other options - has type 3, so no QoS>0 publish slips past the quota
+   guard; the other requests that await an acknowledgement have types 8, 10, 12 and 6 (PUBREL), so they are never counted *)
+Theorem C10_every_publish_is_guarded : forall (o : publish_opts) (pid : N) (b : bytes),
+  po_qos o <= 2 -> enc_publish o pid = Ok b -> ptype_of b = 3.
+Proof. exact publish_type. Qed.
+Print Assumptions C10_every_publish_is_guarded.
+Theorem C10_only_publishes_are_guarded :
+  (forall o pid sid b, enc_subscribe o pid sid = Ok b -> ptype_of b = 8) /\
+  (forall o pid b, enc_unsubscribe o pid = Ok b -> ptype_of b = 10) /\
+  ptype_of enc_pingreq = 12 /\ (forall pid, ptype_of (enc_pubrel pid) = 6) /\
+  (forall o b, enc_disconnect o = Ok b -> ptype_of b = 14).
+Proof.
+  split; [exact subscribe_type|]. split; [exact unsubscribe_type|]. split; [reflexivity|]. split; [exact pubrel_type|exact disconnect_type].
+Qed.
+Print Assumptions C10_only_publishes_are_guarded.
